@@ -91,7 +91,7 @@ def main():
     try:
         for pid in claimed:
             rc, out = sh(f"./check {pid} --quick", cwd=VERIF)
-            lines = [l for l in out.split("\n") if l.startswith(("VIOLATION", "UNDECIDED", "OK", "failed obligation", "KNOWN-FINDING"))]
+            lines = [l for l in out.split("\n") if l.startswith(("VIOLATION", "UNDECIDED", "OK", "failed obligation", "KNOWN-FINDING", "PROOF-NOT-OBTAINED property"))]
             results[pid] = {"exit": rc, "lines": lines[:8]}
             print(pid, rc, *lines[:4], sep="\n   ")
     finally:
